@@ -1,13 +1,17 @@
 SPEC = {
     "trusted": [
-        "C03: BufRead::lines and UTF-8 decoding are modelled (raw_lines on code points: LF ends a line, one CR before it is dropped, a last line without LF keeps its CR), not verified; texts in the correspondence run are valid UTF-8",
-        "C03: Rust's sort_by_key is assumed to return the sorted permutation (stable); the model uses insertion sort over the derived Ord of the info structs (Quill/Mappings.v), lemma sorted_perm_unique makes the algorithm irrelevant",
+        "C03: BufRead::lines and UTF-8 decoding are modelled (raw_lines on code points: LF ends a line, one CR before it is dropped, a last line without LF keeps its CR), not verified; all texts of the correspondence run are valid UTF-8, a reader input that is not UTF-8 is outside the model",
+        "C03: the nested WithMoreIdentIter loops of tiny_v2::read are modelled as grouping by indentation (build) followed by structurally recursive handlers that reject children under a line whose handler does not descend; that this factorisation has the same Ok/Err behaviour and the same results as the Rust control flow is tied by correspondence only (exhaustively for every sequence of up to 3 (quick) / 4 (thorough) lines out of 16 line shapes below a header, plus mutated and random texts)",
+        "C03: Rust's sort_by_key is assumed to return the stable sorted permutation; the model uses insertion sort over the derived Ord of the info structs (Quill/Mappings.v); lemma sorted_perm_unique makes the algorithm irrelevant for well-formed sets",
         "C03: the name-validity predicates used by the reader (ObjClassName/FieldName/MethodName/ParameterName::check_valid) are those of the C18 model (coq/C18/Model.v)",
+        "C03: write_string on a name containing an unpaired surrogate panics inside io::Write::write_fmt (duke's Display returns fmt::Error); the model's write answers Err for exactly this outcome and the correspondence compares it as WPanic",
         "C03: correspondence cases carry strings as packed UTF-8 in primitive 63-bit integers (decoder C03.Run.u, evaluated by vm_compute; Uint63 is used only there, never in a theorem)",
+        "C03: the harness' independent one-pass row classifier (ref_rows) and its copy of wf/textual (checked against Coq's on every generated mapping set) are the oracles used to search for failing inputs on the implementation",
     ],
     "assumptions": [
-        "wf M (Quill/Mappings.v): at least two namespaces with non-empty names; every names row has one cell per namespace and no empty string; classes, fields and methods have a first-namespace name; keys (class name / member name+descriptor / parameter index) are unique within their parent - the invariants quill's IndexMaps and checked constructors maintain",
-        "textual M (C03/Model.v): namespace names, names and descriptors contain no TAB and no LF, names and namespace names do not end in CR (a cell at the end of a line would lose it); names and descriptors consist of Unicode scalar values (an unpaired surrogate cannot be written as UTF-8: write_string panics inside write_fmt for a name, and substitutes U+FFFD in a descriptor); names are valid for their type (the reader uses the checked constructors); parameter indices fit usize. No condition on comments.",
+        "wf M (Quill/Mappings.v): at least two namespaces with non-empty names; every names row has one cell per namespace and no empty string; classes, fields and methods have a first-namespace name; keys (class name / member name+descriptor / parameter index) are unique within their parent - the invariants quill's IndexMaps and checked constructors maintain (and which read is proved to establish: C03_read_ok_wf)",
+        "textual M (C03/Model.v): namespace names, names and descriptors contain no TAB and no LF and do not end in CR (a cell at the end of a line would lose it); names and descriptors consist of Unicode scalar values; names are valid for their type (the reader uses the checked constructors: class names / unqualified names / method names as in C18); parameter indices fit usize. No condition on comments (after fix 1ac2bb2) and none on the mappings' own comment (after fix 29d9cf3).",
+        "the theorems hold for every number of namespaces >= 2, not only 2..4",
     ],
     "stated_not_proved": [],
 }
